@@ -723,10 +723,47 @@ def r19_13(chk, P, rule='R19.13'):
     chk.require(worker is not None, 'the lapped time-seek worker (handle, double, seek function pointer) was not found')
     plains = [P.need('ov_time_seek'), P.need('ov_time_seek_page')]
 
+    depth = [0]
+
     class H_(absint.Hooks):
         def on_call(self, A, env, e, avals):
-            if A.ex[e]['callee'].get('d') == 'ov_time_total':
+            d = A.ex[e]['callee'].get('d')
+            if d == 'ov_time_total':
                 return V(T, T)
+            # a file-local helper that receives the handle and the time (the rejection may live there): its return range in the
+            # same constant context, one level deep
+            G = P.get(d, A.F) if d else None
+            if G is not None and G.static and G.entry is not None and G.file.endswith('vorbisfile.c') and depth[0] < 2 and \
+                    len(G.params) >= 2 and 'OggVorbis_File' in G.params[0]['t'] and \
+                    any(p_['t'].strip() == 'double' for p_ in G.params) and len(avals) == len(G.params):
+                pin = {}
+                for p_, av in zip(G.params, avals):
+                    if p_['t'].strip() == 'double' and isinstance(av, V) and av.const() is not None:
+                        pin[p_['name']] = av
+                if pin:
+                    depth[0] += 1
+                    try:
+                        A2 = absint.Analyzer(P, G, hooks=H_(), param_init=pin, unroll=4)
+                        base2 = A2.initial_env
+                        pid2 = G.params[0]['id']
+
+                        def init2():
+                            env2 = base2()
+                            env2[f'v{pid2}'] = V(nn=True)
+                            env2[f'v{pid2}->ready_state'] = K(2)
+                            env2[f'v{pid2}->seekable'] = K(1)
+                            env2[f'v{pid2}->links'] = K(1)
+                            return env2
+                        A2.initial_env = init2
+                        A2.run()
+                    finally:
+                        depth[0] -= 1
+                    r = None
+                    for (_, _, v2) in A2.ret_states:
+                        if v2 is None:
+                            return None
+                        r = v2 if r is None else absint.join(r, v2)
+                    return r
             return None
 
         def join_special(self, k, a, b):
